@@ -84,3 +84,909 @@ Proof.
     assert (H2 : (x0 =? x1) = false) by (apply Z.eqb_neq; lia).
     rewrite !Z.eqb_refl, ?H1, ?H2. cbn. rewrite ?H1, ?H2. repeat split; auto.
 Qed.
+
+(* ------------------------------------------------------------------------------ dict lemmas *)
+Lemma vget_In : forall p V m, vget p V = Some m -> In (p, m) V.
+Proof.
+  intros p V. induction V as [|[p' m'] t IH]; intros m H; cbn [vget] in H; [discriminate|].
+  destruct (p =? p') eqn:E.
+  - apply Z.eqb_eq in E. inversion H; subst. left; reflexivity.
+  - right. apply IH. exact H.
+Qed.
+
+Lemma vset_In : forall p m V p' m', In (p', m') (vset p m V) -> (p' = p /\ m' = m) \/ In (p', m') V.
+Proof.
+  intros p m V. induction V as [|[q mq] t IH]; intros p' m' H; cbn [vset] in H.
+  - destruct H as [H|[]]. inversion H; subst. left; split; reflexivity.
+  - destruct (p =? q) eqn:E.
+    + apply Z.eqb_eq in E. subst q. destruct H as [H|H].
+      * inversion H; subst. left; split; reflexivity.
+      * right. right. exact H.
+    + destruct H as [H|H].
+      * right. left. exact H.
+      * destruct (IH _ _ H) as [H1|H1]; [left; exact H1|right; right; exact H1].
+Qed.
+
+Lemma inner_set_In : forall k v m k' w', In (k', w') (inner_set k v m) -> In (k', w') m \/ w' = v.
+Proof.
+  intros k v m. induction m as [|[q w] t IH]; intros k' w' H; cbn [inner_set] in H.
+  - destruct H as [H|[]]. inversion H; subst. right; reflexivity.
+  - destruct (key_eqb k q) eqn:E.
+    + destruct H as [H|H].
+      * inversion H; subst. right; reflexivity.
+      * left. right. exact H.
+    + destruct H as [H|H].
+      * left. left. exact H.
+      * destruct (IH _ _ H) as [H1|H1]; [left; right; exact H1|right; exact H1].
+Qed.
+
+Lemma inner_init_In : forall ps m k w, In (k, w) (inner_init ps m) -> In (k, w) m \/ w = 0.
+Proof.
+  intros ps m k w H. unfold inner_init in H.
+  destruct (inner_get (ps, 0) m).
+  - left; exact H.
+  - apply inner_set_In in H. destruct H as [H|H]; [|right; exact H].
+    apply inner_set_In in H. exact H.
+Qed.
+
+Lemma inner_add_In : forall k q m m2 k' w',
+  inner_add k q m = Some m2 -> In (k', w') m2 ->
+  In (k', w') m \/ (k' = k /\ exists w0, In (k', w0) m /\ w' = w0 + q).
+Proof.
+  intros k q m. induction m as [|[kk w] t IH]; intros m2 k' w' H Hin; cbn [inner_add] in H; [discriminate|].
+  destruct (key_eqb k kk) eqn:E.
+  - inversion H; subst. apply key_eqb_eq in E. subst kk. destruct Hin as [Hin|Hin].
+    + inversion Hin; subst. right. split; [reflexivity|]. exists w. split; [left; reflexivity|reflexivity].
+    + left. right. exact Hin.
+  - destruct (inner_add k q t) as [t'|] eqn:Et; [|discriminate]. inversion H; subst.
+    destruct Hin as [Hin|Hin].
+    + left. left. exact Hin.
+    + destruct (IH t' k' w' eq_refl Hin) as [H1|[H1 [w0 [H2 H3]]]].
+      * left. right. exact H1.
+      * right. split; [exact H1|]. exists w0. split; [right; exact H2|exact H3].
+Qed.
+
+Lemma find_iv_pos : forall p ivs iv, find_iv p ivs = Some iv -> iv_pos iv = p /\ In iv ivs.
+Proof.
+  intros p ivs. induction ivs as [|x t IH]; intros iv H; cbn [find_iv] in H; [discriminate|].
+  destruct (iv_pos x =? p) eqn:E.
+  - inversion H; subst. apply Z.eqb_eq in E. split; [exact E|left; reflexivity].
+  - destruct (IH iv H) as [H1 H2]. split; [exact H1|right; exact H2].
+Qed.
+
+(* two views with the same (position, genotype) columns find records with the same genotype *)
+Definition site (iv : ivar) : Z * list Z := (iv_pos iv, iv_g iv).
+Lemma find_iv_sites : forall p a b iv,
+  map site a = map site b -> find_iv p a = Some iv ->
+  exists iv', find_iv p b = Some iv' /\ iv_g iv' = iv_g iv.
+Proof.
+  intros p a. induction a as [|x t IH]; intros b iv Hm Hf; cbn [find_iv] in Hf; [discriminate|].
+  destruct b as [|y u]; [discriminate|]. cbn [map] in Hm. inversion Hm as [[Hp Hg Ht]].
+  cbn [find_iv]. rewrite <- Hp.
+  destruct (iv_pos x =? p) eqn:E.
+  - inversion Hf; subst. exists y. split; [reflexivity|symmetry; exact Hg].
+  - apply IH; auto.
+Qed.
+
+(* ------------------------------------------------------------- phi_of: what a phased call gives *)
+Lemma phi_of_spec : forall ivs p b x0 x1, phi_of ivs p = Some (b, x0, x1) ->
+  exists iv, find_iv p ivs = Some iv /\ kept_phase iv = Some (b, x0, x1) /\ is_hom (iv_g iv) = false.
+Proof.
+  intros ivs p b x0 x1 H. unfold phi_of in H.
+  destruct (find_iv p ivs) as [iv|] eqn:E; [|discriminate].
+  destruct (is_hom (iv_g iv)) eqn:Eh; [discriminate|].
+  exists iv. repeat split; auto.
+Qed.
+
+Lemma kept_phase_view : forall s r b x0 x1, kept_phase (ivar_of s r) = Some (b, x0, x1) ->
+  c_gt (nth s (v_calls r) dcall) = [Some x0; Some x1] /\ x0 <> x1 /\
+  iv_g (ivar_of s r) = sort_desc [x0; x1].
+Proof.
+  intros s r b x0 x1 H. unfold kept_phase, ivar_of in H. cbn [iv_phase] in H.
+  unfold extract_phase in H.
+  destruct (c_phased (nth s (v_calls r) dcall) && raw_het (c_gt (nth s (v_calls r) dcall))) eqn:E; [|discriminate].
+  apply andb_true_iff in E. destruct E as [_ Eh].
+  destruct (if v_pskey r then c_ps (nth s (v_calls r) dcall) else Some 0) as [bb|]; [|discriminate].
+  destruct (c_gt (nth s (v_calls r) dcall)) as [|[a0|] [|[a1|] [|? ?]]] eqn:Eg; try discriminate.
+  inversion H; subst. split; [reflexivity|].
+  assert (Hne : x0 <> x1).
+  { unfold raw_het in Eh. cbn [forallb oz_eqb] in Eh. rewrite andb_true_r in Eh.
+    apply negb_true_iff in Eh. apply Z.eqb_neq in Eh. exact Eh. }
+  split; [exact Hne|]. unfold ivar_of. cbn [iv_g]. rewrite Eg. apply gvec_pair.
+Qed.
+
+Lemma sample_view_In : forall t s iv, In iv (sample_view t s) -> exists r, In r t /\ iv = ivar_of s r.
+Proof.
+  intros t s iv H. unfold sample_view in H. apply in_map_iff in H. destruct H as [r [H1 H2]].
+  exists r. split; auto.
+Qed.
+
+(* a phased entry of the tagging VCF: heterozygous, and the genotype vector of the record is the
+   descending pair of its two alleles *)
+Lemma phi_view_spec : forall t s p b x0 x1, phi_of (sample_view t s) p = Some (b, x0, x1) ->
+  x0 <> x1 /\ exists iv, find_iv p (sample_view t s) = Some iv /\ iv_g iv = sort_desc [x0; x1].
+Proof.
+  intros t s p b x0 x1 H. apply phi_of_spec in H. destruct H as [iv [Hf [Hk _]]].
+  destruct (find_iv_pos _ _ _ Hf) as [_ Hin]. apply sample_view_In in Hin. destruct Hin as [r [_ Hr]].
+  subst iv. apply kept_phase_view in Hk. destruct Hk as [_ [Hne Hg]].
+  split; [exact Hne|]. exists (ivar_of s r). split; auto.
+Qed.
+
+(* ----------------------------------------------------------- haplotag: tags of an error-free read *)
+Section Tagging.
+  Variable phi : Z -> option (Z * Z * Z).
+  Hypothesis phi_het : forall p b x0 x1, phi p = Some (b, x0, x1) -> x0 <> x1.
+
+  Lemma read_sets_nil : forall vars,
+    flat_map (fun v => match phi (rv_pos v) with Some (ps, _, _) => [ps] | None => [] end) vars = [] ->
+    forall v, In v vars -> phi (rv_pos v) = None.
+  Proof.
+    induction vars as [|x t IH]; intros H v Hin; [destruct Hin|].
+    cbn [flat_map] in H. apply app_eq_nil in H. destruct H as [H1 H2].
+    destruct Hin as [Hin|Hin].
+    - subst x. destruct (phi (rv_pos v)) as [[[ps a] b]|]; [discriminate|reflexivity].
+    - apply IH; auto.
+  Qed.
+
+  Lemma costs_nil : forall vars, (forall v, In v vars -> phi (rv_pos v) = None) ->
+    fold_left (hc_step phi) vars [] = [].
+  Proof.
+    intros vars H. apply (fold_left_inv (hc_step phi) (fun m => m = [])); [|reflexivity].
+    intros a x Hin Ha. subst a. unfold hc_step. rewrite (H x Hin). reflexivity.
+  Qed.
+
+  (* cost table of an error-free read of haplotype h in set st: one entry, all weight on haplotype h *)
+  Definition cost_shape (h st : Z) (m : hcosts) : Prop :=
+    m = [] \/ exists c0 c1, m = [(st, (c0, c1))] /\ 0 <= c0 /\ 0 <= c1 /\ (if h =? 0 then c1 else c0) = 0.
+
+  Lemma costs_error_free : forall h st r, (h = 0 \/ h = 1) -> error_free_on phi h st r = true ->
+    cost_shape h st (fold_left (hc_step phi) (r_vars r) []).
+  Proof.
+    intros h st r Hh Hef. unfold error_free_on in Hef. rewrite forallb_forall in Hef.
+    apply (fold_left_inv (hc_step phi) (cost_shape h st)); [|left; reflexivity].
+    intros m v Hin Hm. specialize (Hef v Hin). apply andb_true_iff in Hef. destruct Hef as [Hq Hv].
+    apply Z.leb_le in Hq. unfold hc_step.
+    destruct (phi (rv_pos v)) as [[[ps x0] x1]|] eqn:Ep; [|exact Hm].
+    apply andb_true_iff in Hv. destruct Hv as [Hps Ha]. apply Z.eqb_eq in Hps. apply Z.eqb_eq in Ha. subst ps.
+    pose proof (phi_het _ _ _ _ Ep) as Hne.
+    right. destruct Hh as [Hh|Hh]; subst h; cbn [Z.eqb] in Ha |- *.
+    + (* haplotype 0: allele = x0 *)
+      rewrite Ha. rewrite Z.eqb_refl. assert (E1 : (x0 =? x1) = false) by (apply Z.eqb_neq; exact Hne). rewrite E1.
+      destruct Hm as [Hm|[c0 [c1 [Hm [H0 [H1 H2]]]]]]; subst m; cbn [hc_add].
+      * exists (rv_qual v), 0. split; [reflexivity|lia].
+      * rewrite Z.eqb_refl. cbn [Z.eqb] in H2. exists (c0 + rv_qual v), (c1 + 0). split; [reflexivity|lia].
+    + rewrite Ha. rewrite Z.eqb_refl. assert (E1 : (x1 =? x0) = false) by (apply Z.eqb_neq; auto). rewrite E1.
+      destruct Hm as [Hm|[c0 [c1 [Hm [H0 [H1 H2]]]]]]; subst m; cbn [hc_add].
+      * exists 0, (rv_qual v). split; [reflexivity|lia].
+      * rewrite Z.eqb_refl. cbn [Z.eqb] in H2. exists (c0 + 0), (c1 + rv_qual v). split; [reflexivity|lia].
+  Qed.
+
+  (* the haplotag decision for such a read: untagged, or haplotype h and set st *)
+  Lemma decide_error_free : forall h st r, (h = 0 \/ h = 1) -> error_free_on phi h st r = true ->
+    haplotag_decide phi r = None \/ exists q, haplotag_decide phi r = Some (h, q, st) /\ 0 < q.
+  Proof.
+    intros h st r Hh Hef. pose proof (costs_error_free h st r Hh Hef) as Hs.
+    unfold haplotag_decide. destruct Hs as [Hs|[c0 [c1 [Hs [H0 [H1 H2]]]]]]; rewrite Hs; cbn [hc_best].
+    - left; reflexivity.
+    - destruct (Z.abs (c0 - c1) =? 0) eqn:Eq; [left; reflexivity|].
+      apply Z.eqb_neq in Eq. right. exists (Z.abs (c0 - c1)).
+      destruct Hh as [Hh|Hh]; subst h; cbn [Z.eqb] in H2; subst.
+      + assert (E : (c0 <? 0) = false) by (apply Z.ltb_ge; lia). rewrite E. split; [reflexivity|lia].
+      + assert (E : (0 <? c1) = true) by (apply Z.ltb_lt; lia). rewrite E. split; [reflexivity|lia].
+  Qed.
+
+  (* What compute_votes uses of a tagged read (after its guards ht in {0,1}): the PS tag is the set
+     of every phased variant the read shows, and the read shows the allele of haplotype ht there. *)
+  Lemma tagged_read_spec : forall r,
+    tagged_by phi r = true -> error_free phi r = true ->
+    0 <= r_hp r - 1 ->
+    forall v, In v (r_vars r) ->
+      0 <= rv_qual v /\
+      forall b x0 x1, phi (rv_pos v) = Some (b, x0, x1) ->
+        r_ps r = b /\ rv_allele v = (if r_hp r - 1 =? 0 then x0 else x1).
+  Proof.
+    intros r Ht Hef Hht v Hin. unfold tagged_by in Ht. apply andb_true_iff in Ht. destruct Ht as [Thp Tps].
+    apply Z.eqb_eq in Thp. apply Z.eqb_eq in Tps.
+    unfold error_free in Hef. unfold read_sets in Hef.
+    destruct (flat_map _ (r_vars r)) as [|st rest] eqn:Ers.
+    - (* no phased variant: the read is untagged *)
+      pose proof (read_sets_nil _ Ers) as Hn. unfold haplotag_decide in Thp.
+      rewrite (costs_nil _ Hn) in Thp. cbn in Thp. lia.
+    - assert (Hcase : exists h, (h = 0 \/ h = 1) /\ error_free_on phi h st r = true).
+      { apply orb_true_iff in Hef. destruct Hef as [H|H]; [exists 0|exists 1]; split; auto. }
+      destruct Hcase as [h [Hh Hon]].
+      destruct (decide_error_free h st r Hh Hon) as [Hd|[q [Hd Hq]]]; rewrite Hd in Thp, Tps; cbn [tags_of fst snd] in Thp, Tps.
+      + lia.
+      + unfold error_free_on in Hon. rewrite forallb_forall in Hon. specialize (Hon v Hin).
+        apply andb_true_iff in Hon. destruct Hon as [Hq0 Hv]. apply Z.leb_le in Hq0. split; [exact Hq0|].
+        intros b x0 x1 Ep. rewrite Ep in Hv. apply andb_true_iff in Hv. destruct Hv as [Hps Ha].
+        apply Z.eqb_eq in Hps. apply Z.eqb_eq in Ha. split; [lia|].
+        replace (r_hp r - 1) with h by lia. exact Ha.
+  Qed.
+End Tagging.
+
+(* ------------------------------------------------------------------- votes_concentrate (generic) *)
+Section Votes.
+  Variable phi : Z -> option (Z * Z * Z).      (* the phasing that tagged the reads *)
+  Variable ivs : list ivar.                    (* haplotagphase's view of its input VCF *)
+  Hypothesis phi_het : forall p b x0 x1, phi p = Some (b, x0, x1) -> x0 <> x1.
+  Hypothesis phi_site : forall p b x0 x1, phi p = Some (b, x0, x1) ->
+    exists iv, find_iv p ivs = Some iv /\ iv_g iv = sort_desc [x0; x1].
+
+  (* the key (phase set index, haplotype xor allele id) that is the orientation of phi at p *)
+  Definition on_target (p : Z) (k : vkey) : Prop :=
+    forall b x0 x1, phi p = Some (b, x0, x1) ->
+      exists iv i, find_iv p ivs = Some iv /\ a2id (iv_g iv) x0 = Some i /\ k = (b - 1, i).
+
+  Definition vinv (V : votes) : Prop :=
+    forall p m, In (p, m) V -> forall k w, In (k, w) m -> 0 <= w /\ (w <> 0 -> on_target p k).
+
+  Lemma vote_variant_inv : forall ps ht V v V',
+    (ht = 0 \/ ht = 1) -> 0 <= rv_qual v ->
+    (forall b x0 x1, phi (rv_pos v) = Some (b, x0, x1) ->
+       ps = b - 1 /\ rv_allele v = (if ht =? 0 then x0 else x1)) ->
+    vinv V -> vote_variant ivs ps ht V v = Ok V' -> vinv V'.
+  Proof.
+    intros ps ht V v V' Hht Hq Hv HV Hstep. unfold vote_variant in Hstep.
+    destruct (find_iv (rv_pos v) ivs) as [iv|] eqn:Ef; [|discriminate].
+    destruct (is_hom (iv_g iv)) eqn:Eh; [inversion Hstep; subst; exact HV|].
+    destruct (a2id (iv_g iv) (rv_allele v)) as [i|] eqn:Ei; [|discriminate].
+    set (m0 := match vget (rv_pos v) V with Some m => m | None => [] end) in *.
+    destruct (inner_add (ps, Z.lxor ht i) (rv_qual v) (inner_init ps m0)) as [m2|] eqn:Ea; [|discriminate].
+    inversion Hstep; subst V'. clear Hstep.
+    assert (Hm0 : forall k w, In (k, w) m0 -> 0 <= w /\ (w <> 0 -> on_target (rv_pos v) k)).
+    { intros k w Hin. unfold m0 in Hin. destruct (vget (rv_pos v) V) as [m|] eqn:Eg; [|destruct Hin].
+      apply vget_In in Eg. exact (HV _ _ Eg _ _ Hin). }
+    assert (Hm1 : forall k w, In (k, w) (inner_init ps m0) -> 0 <= w /\ (w <> 0 -> on_target (rv_pos v) k)).
+    { intros k w Hin. apply inner_init_In in Hin. destruct Hin as [Hin|Hin]; [exact (Hm0 _ _ Hin)|].
+      subst w. split; [lia|intros Hc; exfalso; apply Hc; reflexivity]. }
+    intros p m Hin. apply vset_In in Hin. destruct Hin as [[Hp Hm]|Hin]; [|exact (HV _ _ Hin)].
+    subst p m. intros k w Hkw.
+    destruct (inner_add_In _ _ _ _ _ _ Ea Hkw) as [Hold|[Hk [w0 [Hw0 Hw]]]]; [exact (Hm1 _ _ Hold)|].
+    destruct (Hm1 _ _ Hw0) as [Hw0n _]. split; [lia|]. intros _.
+    intros b x0 x1 Ep. destruct (Hv _ _ _ Ep) as [Hps Hal].
+    destruct (phi_site _ _ _ _ Ep) as [iv' [Ef' Hg]]. rewrite Ef in Ef'. inversion Ef'; subst iv'.
+    pose proof (phi_het _ _ _ _ Ep) as Hne.
+    destruct (het_ids x0 x1 Hne) as [i0 [Hi0 [Ha0 [Ha1 _]]]]. rewrite <- Hg in Ha0, Ha1.
+    exists iv, i0. split; [exact Ef|]. split; [exact Ha0|].
+    subst k. f_equal; [exact Hps|].
+    destruct Hht as [Hht|Hht]; subst ht; cbn [Z.eqb] in Hal; rewrite Hal in Ei.
+    - rewrite Ha0 in Ei. inversion Ei; subst i. apply Z.lxor_0_l.
+    - rewrite Ha1 in Ei. inversion Ei; subst i. destruct Hi0 as [Hi0|Hi0]; subst i0; reflexivity.
+  Qed.
+
+  Lemma vote_read_inv : forall V r V',
+    tagged_by phi r = true -> error_free phi r = true ->
+    vinv V -> vote_read ivs V r = Ok V' -> vinv V'.
+  Proof.
+    intros V r V' Ht Hef HV Hstep. unfold vote_read in Hstep.
+    destruct ((r_hp r - 1 <? 0) || (r_ps r - 1 <? 0)) eqn:Eg; [inversion Hstep; subst; exact HV|].
+    destruct (1 <? r_hp r - 1) eqn:Eg2; [inversion Hstep; subst; exact HV|].
+    apply orb_false_iff in Eg. destruct Eg as [Eg1 _]. apply Z.ltb_ge in Eg1. apply Z.ltb_ge in Eg2.
+    pose proof (tagged_read_spec phi phi_het r Ht Hef Eg1) as Hspec.
+    apply (fold_res_inv (vote_variant ivs (r_ps r - 1) (r_hp r - 1)) vinv (r_vars r) V V'); auto.
+    intros a v a' Hin Ha Hs. destruct (Hspec v Hin) as [Hq Hv].
+    apply (vote_variant_inv (r_ps r - 1) (r_hp r - 1) a v a'); auto; [lia|].
+    intros b x0 x1 Ep. destruct (Hv _ _ _ Ep) as [H1 H2]. split; [lia|exact H2].
+  Qed.
+
+  Lemma compute_votes_inv : forall reads V,
+    (forall r, In r reads -> tagged_by phi r = true /\ error_free phi r = true) ->
+    compute_votes ivs reads = Ok V -> vinv V.
+  Proof.
+    intros reads V Hr Hc. unfold compute_votes in Hc.
+    apply (fold_res_inv (vote_read ivs) vinv reads [] V); auto.
+    - intros a r a' Hin Ha Hs. destruct (Hr r Hin) as [H1 H2]. apply (vote_read_inv a r a'); auto.
+    - intros p m [].
+  Qed.
+End Votes.
+
+(* ------------------------------------------------------------------------------- best_candidate *)
+Lemma first_max_spec : forall m e, first_max m = Some e ->
+  In e m /\ forall e', In e' m -> snd e' <= snd e.
+Proof.
+  induction m as [|x t IH]; intros e H; cbn [first_max] in H; [discriminate|].
+  destruct (first_max t) as [e1|] eqn:E1.
+  - destruct (IH e1 eq_refl) as [Hin Hmax].
+    destruct (snd x <? snd e1) eqn:El; inversion H; subst e.
+    + apply Z.ltb_lt in El. split; [right; exact Hin|].
+      intros e' [He|He]; [subst e'; lia|apply Hmax; exact He].
+    + apply Z.ltb_ge in El. split; [left; reflexivity|].
+      intros e' [He|He]; [subst e'; lia|]. specialize (Hmax e' He). lia.
+  - inversion H; subst e. destruct t as [|y u].
+    + split; [left; reflexivity|]. intros e' [He|[]]. subst; lia.
+    + cbn [first_max] in E1. destruct (first_max u) as [e2|]; [destruct (snd y <? snd e2)|]; discriminate.
+Qed.
+
+Lemma total_pos_witness : forall m, (forall k w, In (k, w) m -> 0 <= w) -> total m <> 0 ->
+  exists k w, In (k, w) m /\ 0 < w.
+Proof.
+  induction m as [|[k w] t IH]; intros Hnn Ht; unfold total in Ht; cbn [fold_right snd] in Ht.
+  - exfalso. apply Ht. reflexivity.
+  - destruct (Z.eq_dec w 0) as [Hw|Hw].
+    + subst w. destruct IH as [k' [w' [Hin Hp]]].
+      * intros k' w' Hin. apply (Hnn k' w'). right. exact Hin.
+      * unfold total. lia.
+      * exists k', w'. split; [right; exact Hin|exact Hp].
+    + exists k, w. split; [left; reflexivity|]. specialize (Hnn k w (or_introl eq_refl)). lia.
+Qed.
+
+(* if all non-zero weight lies on keys satisfying P, the best candidate satisfies P *)
+Lemma best_candidate_on : forall (P : vkey -> Prop) m a ps score tot,
+  (forall k w, In (k, w) m -> 0 <= w /\ (w <> 0 -> P k)) ->
+  best_candidate m = Ok (a, ps, score, tot) -> P (ps, a) /\ 0 < score.
+Proof.
+  intros P m a ps score tot Hm Hb. unfold best_candidate in Hb.
+  destruct (first_max m) as [[[ps' a'] sc']|] eqn:Ef; [|discriminate].
+  destruct (total m =? 0) eqn:Et; [discriminate|]. inversion Hb; subst. clear Hb.
+  apply Z.eqb_neq in Et.
+  destruct (first_max_spec _ _ Ef) as [Hin Hmax].
+  destruct (total_pos_witness m (fun k w H => proj1 (Hm k w H)) Et) as [k [w [Hkw Hw]]].
+  specialize (Hmax _ Hkw). cbn [snd] in Hmax.
+  destruct (Hm _ _ Hin) as [_ HP]. split; [apply HP; lia|lia].
+Qed.
+
+(* ------------------------------------------------------------------------------ comps / supers *)
+Lemma cget_cset_same : forall p k c, cget p (cset p k c) = Some k.
+Proof.
+  intros p k c. induction c as [|[q kq] t IH]; cbn [cset cget].
+  - rewrite Z.eqb_refl. reflexivity.
+  - destruct (p =? q) eqn:E; cbn [cget]; rewrite E; [reflexivity|exact IH].
+Qed.
+
+Lemma cget_cset_other : forall p p' k c, p <> p' -> cget p (cset p' k c) = cget p c.
+Proof.
+  intros p p' k c Hne. induction c as [|[q kq] t IH]; cbn [cset cget].
+  - assert (E : (p =? p') = false) by (apply Z.eqb_neq; exact Hne). rewrite E. reflexivity.
+  - destruct (p' =? q) eqn:E; cbn [cget].
+    + apply Z.eqb_eq in E. subst q.
+      assert (E2 : (p =? p') = false) by (apply Z.eqb_neq; exact Hne). rewrite E2. reflexivity.
+    + destruct (p =? q); [reflexivity|exact IH].
+Qed.
+
+Lemma cget_cset_some : forall p p' k c, is_some (cget p c) = true -> is_some (cget p (cset p' k c)) = true.
+Proof.
+  intros p p' k c H. destruct (Z.eq_dec p p') as [He|Hne].
+  - subst. rewrite cget_cset_same. reflexivity.
+  - rewrite cget_cset_other; auto.
+Qed.
+
+Lemma sv_insert_In : forall x y l, In y (sv_insert x l) <-> y = x \/ In y l.
+Proof.
+  intros x y l. induction l as [|z t IH]; cbn [sv_insert].
+  - cbn [In]. intuition.
+  - destruct (sv_pos x <=? sv_pos z); cbn [In].
+    + intuition.
+    + rewrite IH. intuition.
+Qed.
+
+Lemma sv_sort_In : forall y l, In y (sv_sort l) <-> In y l.
+Proof.
+  intros y l. induction l as [|x t IH]; cbn [sv_sort]; [tauto|].
+  rewrite sv_insert_In. rewrite IH. cbn [In]. intuition.
+Qed.
+
+Lemma plookup_In : forall p l a0 a1, plookup p l = Some (a0, a1) ->
+  exists x, In x l /\ sv_pos x = p /\ sv_a0 x = a0 /\ sv_a1 x = a1.
+Proof.
+  intros p l. induction l as [|x t IH]; intros a0 a1 H; cbn [plookup] in H; [discriminate|].
+  destruct (plookup p t) as [[b0 b1]|] eqn:E.
+  - inversion H; subst. destruct (IH _ _ eq_refl) as [y [H1 H2]]. exists y. split; [right; exact H1|exact H2].
+  - destruct (sv_pos x =? p) eqn:Ep; [|discriminate]. apply Z.eqb_eq in Ep. inversion H; subst.
+    exists x. split; [left; reflexivity|]. repeat split; reflexivity.
+Qed.
+
+Lemma In_plookup : forall p l x, In x l -> sv_pos x = p -> is_some (plookup p l) = true.
+Proof.
+  intros p l. induction l as [|y t IH]; intros x Hin Hp; [destruct Hin|]. cbn [plookup].
+  destruct (plookup p t) as [[b0 b1]|] eqn:E; [reflexivity|].
+  destruct Hin as [Hin|Hin].
+  - subst y. rewrite Hp, Z.eqb_refl. reflexivity.
+  - pose proof (IH x Hin Hp) as Hs. discriminate Hs.
+Qed.
+
+(* --------------------------------------------- consensus at one position whose votes concentrate *)
+Definition init_state (rl : rule) (ivs : list ivar) : cstate :=
+  match rl with Fixed => fold_left keep_step ivs ([], []) | Cur => ([], []) end.
+Lemma consensus_unfold : forall rl pr ref ivs V,
+  consensus rl pr ref ivs V =
+  match fold_res (cons_step rl pr ref ivs) V (init_state rl ivs) with
+  | Ok st => Ok (sv_sort (fst st), snd st)
+  | Err e => Err e
+  end.
+Proof. reflexivity. Qed.
+
+Section ConsAt.
+  Variables (rl : rule) (pr : params) (ref : list Z) (ivs : list ivar).
+  Variables (p b x0 x1 : Z) (iv : ivar).
+  Hypothesis Hne : x0 <> x1.
+  Hypothesis Hf : find_iv p ivs = Some iv.
+  Hypothesis Hg : iv_g iv = sort_desc [x0; x1].
+  (* no record at p is put back by the Fixed rule (the input call at p is not phased) *)
+  Hypothesis Hnokeep : forall iv', In iv' ivs -> iv_pos iv' = p -> kept_phase iv' = None.
+
+  Definition target_key (k : vkey) : Prop := exists i, a2id (iv_g iv) x0 = Some i /\ k = (b - 1, i).
+  Definition vat (V : votes) : Prop :=
+    forall m, In (p, m) V -> forall k w, In (k, w) m -> 0 <= w /\ (w <> 0 -> target_key k).
+  Definition cinv (st : cstate) : Prop :=
+    (forall x, In x (fst st) -> sv_pos x = p -> sv_a0 x = x0 /\ sv_a1 x = x1) /\
+    (forall k, cget p (snd st) = Some k -> k = b - 1).
+
+  Lemma cons_step_cinv : forall (st : cstate) (pv : Z * inner) (st' : cstate),
+    (fst pv = p -> forall k w, In (k, w) (snd pv) -> 0 <= w /\ (w <> 0 -> target_key k)) ->
+    cinv st -> cons_step rl pr ref ivs st pv = Ok st' -> cinv st'.
+  Proof.
+    intros st pv st' Hpv [Hs Hc] Hstep. unfold cons_step in Hstep.
+    assert (Hsk : (match rl with Fixed => is_some (cget (fst pv) (snd st)) | Cur => false end) = true -> cinv st')
+      by (intros Esk; rewrite Esk in Hstep; inversion Hstep; subst; split; assumption).
+    destruct (match rl with Fixed => is_some (cget (fst pv) (snd st)) | Cur => false end) eqn:Esk;
+      [apply Hsk; reflexivity|]. clear Hsk.
+    destruct (best_candidate (snd pv)) as [[[[bi ps] score] tot]|e] eqn:Eb; [|discriminate].
+    destruct (find_iv (fst pv) ivs) as [iv1|] eqn:Ef1; [|discriminate].
+    destruct (Z.eq_dec (fst pv) p) as [Hp|Hp].
+    - (* the position under consideration *)
+      rewrite Hp in *. rewrite Hf in Ef1. inversion Ef1; subst iv1. clear Ef1.
+      destruct (best_candidate_on target_key _ _ _ _ _ (Hpv eq_refl) Eb) as [[i [Hi Hk]] _].
+      inversion Hk; subst ps bi. clear Hk.
+      destruct (het_ids x0 x1 Hne) as [i0 [_ [Ha0 [_ [Hn0 [Hn1 _]]]]]]. rewrite <- Hg in Ha0, Hn0, Hn1.
+      rewrite Ha0 in Hi. inversion Hi; subst i. clear Hi.
+      assert (Hc' : forall k, cget p (cset p (b - 1) (snd st)) = Some k -> k = b - 1).
+      { intros k Hk. rewrite cget_cset_same in Hk. inversion Hk; reflexivity. }
+      destruct (negb (is_some (iv_phase iv)) && _) eqn:Efl.
+      + inversion Hstep; subst st'. split; [exact Hs|exact Hc'].
+      + rewrite Hn0, Hn1 in Hstep. inversion Hstep; subst st'. cbn [fst snd]. split; [|exact Hc'].
+        intros x Hin Hx. apply in_app_iff in Hin. destruct Hin as [Hin|[Hin|[]]]; [exact (Hs x Hin Hx)|].
+        subst x. cbn [sv_a0 sv_a1]. split; reflexivity.
+    - (* another position *)
+      assert (Hc' : forall k, cget p (cset (fst pv) ps (snd st)) = Some k -> k = b - 1).
+      { intros k Hk. rewrite cget_cset_other in Hk; [exact (Hc k Hk)|]. intro Hq. apply Hp. symmetry. exact Hq. }
+      destruct (negb (is_some (iv_phase iv1)) && _) eqn:Efl.
+      + inversion Hstep; subst st'. split; [exact Hs|exact Hc'].
+      + destruct (nth_z (iv_g iv1) bi) as [a0|]; [|discriminate].
+        destruct (nth_z (iv_g iv1) (1 - bi)) as [a1|]; [|discriminate].
+        inversion Hstep; subst st'. cbn [fst snd]. split; [|exact Hc'].
+        intros x Hin Hx. apply in_app_iff in Hin. destruct Hin as [Hin|[Hin|[]]]; [exact (Hs x Hin Hx)|].
+        subst x. cbn [sv_pos] in Hx. exfalso. apply Hp. exact Hx.
+  Qed.
+
+  Lemma keep_cinv : forall l st, (forall x, In x l -> In x ivs) -> cinv st -> cinv (fold_left keep_step l st).
+  Proof.
+    intros l st Hsub Hst. apply (fold_left_inv keep_step cinv); [|exact Hst].
+    intros [sup cs] iv' Hin [Hs Hc]. unfold keep_step.
+    destruct (kept_phase iv') as [[[b' y0] y1]|] eqn:Ek; [|split; assumption].
+    assert (Hp : iv_pos iv' <> p).
+    { intro Hq. rewrite (Hnokeep iv' (Hsub _ Hin) Hq) in Ek. discriminate. }
+    cbn [fst snd] in *. split.
+    - intros x Hx Hxp. apply in_app_iff in Hx. destruct Hx as [Hx|[Hx|[]]]; [exact (Hs x Hx Hxp)|].
+      subst x. cbn [sv_pos] in Hxp. exfalso. apply Hp. exact Hxp.
+    - intros k Hk. cbn [fst snd] in Hk. rewrite cget_cset_other in Hk; [exact (Hc k Hk)|]. intro Hq. apply Hp. symmetry. exact Hq.
+  Qed.
+
+  Lemma consensus_cinv : forall V st, vat V -> consensus rl pr ref ivs V = Ok st -> cinv st.
+  Proof.
+    intros V st HV Hc. rewrite consensus_unfold in Hc.
+    set (st0 := init_state rl ivs) in *.
+    assert (H0 : cinv st0).
+    { assert (Hnil : cinv ([], [])) by (split; [intros x Hx; destruct Hx|intros k Hk; cbn in Hk; discriminate Hk]).
+      unfold st0, init_state. destruct rl; [exact Hnil|]. apply keep_cinv; auto. }
+    destruct (fold_res (cons_step rl pr ref ivs) V st0) as [st1|e] eqn:Ef; [|discriminate].
+    inversion Hc; subst st. clear Hc.
+    assert (H1 : cinv st1).
+    { apply (fold_res_inv (cons_step rl pr ref ivs) cinv V st0 st1); auto.
+      intros a pv a' Hin Ha Hs. apply (cons_step_cinv a pv a'); auto.
+      intros Hp k w Hkw. destruct pv as [pp m]. cbn [fst snd] in *. subst pp. exact (HV m Hin k w Hkw). }
+    destruct H1 as [Hs Hcc]. split; [|exact Hcc]. cbn [fst].
+    intros x Hx Hxp. apply (proj1 (sv_sort_In _ _)) in Hx. exact (Hs x Hx Hxp).
+  Qed.
+End ConsAt.
+
+(* ------------------------------------------------------------------------------------ the writer *)
+Lemma remove_phasing_unphased : forall c, c_phased (remove_phasing c) = false.
+Proof. reflexivity. Qed.
+
+Lemma write_call_phased : forall p st c, c_phased (write_call p st c) = true ->
+  exists a0 a1 k, plookup p (fst st) = Some (a0, a1) /\ cget p (snd st) = Some k /\
+                  write_call p st c = mkCall [Some a0; Some a1] true (Some (k + 1)).
+Proof.
+  intros p st c H. unfold write_call in *.
+  destruct (plookup p (fst st)) as [[a0 a1]|]; [|cbn in H; discriminate].
+  destruct (cget p (snd st)) as [k|]; [|cbn in H; discriminate].
+  destruct (negb (is_hom _)); [|cbn in H; discriminate].
+  exists a0, a1, k. repeat split; reflexivity.
+Qed.
+
+Lemma nth_error_combine : forall {A B} (a : list A) (b : list B) i x y,
+  nth_error (combine a b) i = Some (x, y) -> nth_error a i = Some x /\ nth_error b i = Some y.
+Proof.
+  intros A B a. induction a as [|a0 ta IH]; intros b i x y H; [destruct i; discriminate|].
+  destruct b as [|b0 tb]; [destruct i; discriminate|].
+  destruct i as [|i]; cbn [combine nth_error] in *.
+  - inversion H; subst. split; reflexivity.
+  - apply IH. exact H.
+Qed.
+
+Lemma combine_nth_error : forall {A B} (a : list A) (b : list B) i x y,
+  nth_error a i = Some x -> nth_error b i = Some y -> nth_error (combine a b) i = Some (x, y).
+Proof.
+  intros A B a. induction a as [|a0 ta IH]; intros b i x y Ha Hb; [destruct i; discriminate|].
+  destruct b as [|b0 tb]; [destruct i; discriminate|].
+  destruct i as [|i]; cbn [combine nth_error] in *.
+  - inversion Ha; inversion Hb; subst. reflexivity.
+  - apply IH; assumption.
+Qed.
+
+Lemma seq_combine_nth : forall {B} (l : list B) a i x,
+  nth_error l i = Some x -> nth_error (combine (seq a (length l)) l) i = Some (a + i, x)%nat.
+Proof.
+  intros B l. induction l as [|y t IH]; intros a i x H; [destruct i; discriminate|].
+  cbn [length seq combine]. destruct i as [|i]; cbn [nth_error] in *.
+  - inversion H; subst. rewrite Nat.add_0_r. reflexivity.
+  - rewrite (IH (S a) i x H). f_equal. f_equal. lia.
+Qed.
+
+Lemma write_record_phased_call : forall sts r s c',
+  nth_error (v_calls (write_record sts r)) s = Some c' -> c_phased c' = true ->
+  exists st c, nth_error sts s = Some st /\ nth_error (v_calls r) s = Some c /\
+               c' = write_call (v_pos r) st (remove_phasing c).
+Proof.
+  intros sts r s c' Hn Hp. unfold write_record in Hn.
+  destruct (existsb (phased_here (v_pos r)) sts); cbn [v_calls] in Hn.
+  - rewrite nth_error_map in Hn.
+    destruct (nth_error (combine sts (map remove_phasing (v_calls r))) s) as [[st c1]|] eqn:E; [|discriminate].
+    cbn [option_map fst snd] in Hn. inversion Hn; subst c'. clear Hn.
+    apply nth_error_combine in E. destruct E as [E1 E2]. rewrite nth_error_map in E2.
+    destruct (nth_error (v_calls r) s) as [c|] eqn:Ec; [|discriminate]. cbn [option_map] in E2.
+    inversion E2; subst c1. exists st, c. repeat split; auto.
+  - rewrite nth_error_map in Hn. destruct (nth_error (v_calls r) s) as [c|]; [|discriminate].
+    cbn [option_map] in Hn. inversion Hn; subst c'. rewrite remove_phasing_unphased in Hp. discriminate.
+Qed.
+
+(* ---------------------------------------------------------------- views of a table with unique positions *)
+Lemma NoDup_map_inj : forall {A B} (f : A -> B) l a b,
+  NoDup (map f l) -> In a l -> In b l -> f a = f b -> a = b.
+Proof.
+  intros A B f l. induction l as [|x t IH]; intros a b Hnd Ha Hb Hf; [destruct Ha|].
+  cbn [map] in Hnd. inversion Hnd as [|? ? Hnot Hnd']; subst.
+  destruct Ha as [Ha|Ha]; destruct Hb as [Hb|Hb]; subst.
+  - reflexivity.
+  - exfalso. apply Hnot. rewrite Hf. apply in_map. exact Hb.
+  - exfalso. apply Hnot. rewrite <- Hf. apply in_map. exact Ha.
+  - apply IH; auto.
+Qed.
+
+Lemma find_iv_view : forall t s r, NoDup (map v_pos t) -> In r t ->
+  find_iv (v_pos r) (sample_view t s) = Some (ivar_of s r).
+Proof.
+  intros t s r. induction t as [|x u IH]; intros Hnd Hin; [destruct Hin|].
+  cbn [sample_view map find_iv]. unfold ivar_of at 1. cbn [iv_pos].
+  cbn [map] in Hnd. inversion Hnd as [|? ? Hnot Hnd']; subst.
+  destruct Hin as [Hin|Hin].
+  - subst x. rewrite Z.eqb_refl. reflexivity.
+  - destruct (v_pos x =? v_pos r) eqn:E.
+    + apply Z.eqb_eq in E. exfalso. apply Hnot. rewrite E. apply in_map. exact Hin.
+    + apply IH; auto.
+Qed.
+
+Lemma view_unique : forall t s r iv', NoDup (map v_pos t) -> In r t ->
+  In iv' (sample_view t s) -> iv_pos iv' = v_pos r -> iv' = ivar_of s r.
+Proof.
+  intros t s r iv' Hnd Hin Hiv Hp. apply sample_view_In in Hiv. destruct Hiv as [r' [Hr' He]]. subst iv'.
+  unfold ivar_of in Hp. cbn [iv_pos] in Hp.
+  rewrite (NoDup_map_inj v_pos t r' r Hnd Hr' Hin Hp). reflexivity.
+Qed.
+
+(* the per-sample states of a successful run *)
+Lemma haplotagphase_states : forall rl pr ref t readss out,
+  haplotagphase rl pr ref t readss = Ok out ->
+  exists sts, out = map (write_record sts) t /\ length sts = length readss /\
+    forall s reads, nth_error readss s = Some reads ->
+      exists st, nth_error sts s = Some st /\ run_sample rl pr ref (sample_view t s) reads = Ok st.
+Proof.
+  intros rl pr ref t readss out H. unfold haplotagphase in H.
+  destruct (map_res _ (combine (seq 0 (length readss)) readss)) as [sts|e] eqn:E; [|discriminate].
+  inversion H; subst out. exists sts. split; [reflexivity|]. split.
+  - rewrite (map_res_length _ _ _ E). rewrite combine_length, seq_length. apply Nat.min_id.
+  - intros s reads Hn. pose proof (seq_combine_nth readss 0%nat s reads Hn) as Hc. cbn [Nat.add] in Hc.
+    destruct (map_res_nth _ _ _ _ _ E Hc) as [st [H1 H2]]. cbn [fst snd] in H1. exists st. split; assumption.
+Qed.
+
+(* ================================================================== the theorems of C17 (tables) *)
+Section Pipeline.
+  Variables (orig inp : table) (s : nat).
+  Let phi := phi_of (sample_view orig s).
+  Hypothesis Hsites : map site (sample_view orig s) = map site (sample_view inp s).
+
+  Lemma phi_het_view : forall p b x0 x1, phi p = Some (b, x0, x1) -> x0 <> x1.
+  Proof. intros p b x0 x1 H. exact (proj1 (phi_view_spec _ _ _ _ _ _ H)). Qed.
+
+  Lemma phi_site_view : forall p b x0 x1, phi p = Some (b, x0, x1) ->
+    exists iv, find_iv p (sample_view inp s) = Some iv /\ iv_g iv = sort_desc [x0; x1].
+  Proof.
+    intros p b x0 x1 H. destruct (phi_view_spec _ _ _ _ _ _ H) as [_ [iv [Hf Hg]]].
+    destruct (find_iv_sites p _ _ iv Hsites Hf) as [iv' [Hf' Hg']].
+    exists iv'. split; [exact Hf'|]. rewrite Hg'. exact Hg.
+  Qed.
+
+  Theorem votes_concentrate : forall (reads : list read) (V : votes),
+    (forall r, In r reads -> tagged_by phi r = true /\ error_free phi r = true) ->
+    compute_votes (sample_view inp s) reads = Ok V ->
+    forall p b x0 x1 m k w,
+      phi p = Some (b, x0, x1) -> In (p, m) V -> In (k, w) m -> w <> 0 ->
+      0 < w /\ exists iv i, find_iv p (sample_view inp s) = Some iv /\ a2id (iv_g iv) x0 = Some i /\ k = (b - 1, i).
+  Proof.
+    intros reads V Hr Hc p b x0 x1 m k w Hp Hm Hkw Hw.
+    pose proof (compute_votes_inv phi (sample_view inp s) phi_het_view phi_site_view reads V Hr Hc) as HV.
+    destruct (HV p m Hm k w Hkw) as [H0 Ht]. split; [lia|]. exact (Ht Hw b x0 x1 Hp).
+  Qed.
+
+  Theorem consensus_reproduces : forall rl pr ref readss out reads,
+    NoDup (map v_pos inp) ->
+    nth_error readss s = Some reads ->
+    (forall r, In r reads -> tagged_by phi r = true /\ error_free phi r = true) ->
+    haplotagphase rl pr ref inp readss = Ok out ->
+    forall i r r' c c' b x0 x1,
+      nth_error inp i = Some r -> nth_error out i = Some r' ->
+      nth_error (v_calls r) s = Some c -> nth_error (v_calls r') s = Some c' ->
+      phi (v_pos r) = Some (b, x0, x1) ->
+      c_phased c = false -> c_phased c' = true ->
+      c' = mkCall [Some x0; Some x1] true (Some b).
+  Proof.
+    intros rl pr ref readss out reads Hnd Hreads Hr Hrun i r r' c c' b x0 x1 Hi Ho Hc Hc' Hphi Hun Hph.
+    destruct (haplotagphase_states _ _ _ _ _ _ Hrun) as [sts [Hout [_ Hsts]]].
+    destruct (Hsts s reads Hreads) as [st [Hst Hrs]].
+    subst out. rewrite nth_error_map in Ho. rewrite Hi in Ho. cbn [option_map] in Ho. inversion Ho; subst r'. clear Ho.
+    destruct (write_record_phased_call _ _ _ _ Hc' Hph) as [st' [c0 [Hst' [Hc0 Hw]]]].
+    rewrite Hst in Hst'. inversion Hst'; subst st'. rewrite Hc in Hc0. inversion Hc0; subst c0. clear Hst' Hc0.
+    assert (Hpw : c_phased (write_call (v_pos r) st (remove_phasing c)) = true) by (rewrite <- Hw; exact Hph).
+    destruct (write_call_phased _ _ _ Hpw) as [a0 [a1 [k [Hpl [Hcg Heq]]]]].
+    (* the record in haplotagphase's view *)
+    assert (Hin : In r inp) by (eapply nth_error_In; eauto).
+    pose proof (find_iv_view inp s r Hnd Hin) as Hfv.
+    destruct (phi_site_view _ _ _ _ Hphi) as [iv [Hf Hg]]. rewrite Hfv in Hf. inversion Hf; subst iv. clear Hf.
+    pose proof (phi_het_view _ _ _ _ Hphi) as Hne.
+    assert (Hcn : nth s (v_calls r) dcall = c) by (apply nth_error_nth; exact Hc).
+    assert (Hnokeep : forall iv', In iv' (sample_view inp s) -> iv_pos iv' = v_pos r -> kept_phase iv' = None).
+    { intros iv' Hiv Hp. rewrite (view_unique inp s r iv' Hnd Hin Hiv Hp).
+      unfold kept_phase, ivar_of. cbn [iv_phase]. unfold extract_phase. rewrite Hcn, Hun. reflexivity. }
+    unfold run_sample in Hrs. destruct (compute_votes (sample_view inp s) reads) as [V|e] eqn:EV; [|discriminate].
+    pose proof (compute_votes_inv phi (sample_view inp s) phi_het_view phi_site_view reads V Hr EV) as HV.
+    assert (Hvat : vat (v_pos r) b x0 (ivar_of s r) V).
+    { intros m Hm k0 w Hkw. destruct (HV _ m Hm k0 w Hkw) as [H0 Ht]. split; [exact H0|].
+      intros Hw0. destruct (Ht Hw0 b x0 x1 Hphi) as [iv2 [i2 [Hf2 [Ha2 Hk2]]]].
+      rewrite Hfv in Hf2. inversion Hf2; subst iv2. exists i2. split; assumption. }
+    destruct (consensus_cinv rl pr ref (sample_view inp s) (v_pos r) b x0 x1 (ivar_of s r) Hne Hfv Hg Hnokeep V st Hvat Hrs)
+      as [Hsv Hcc].
+    destruct (plookup_In _ _ _ _ Hpl) as [x [Hx [Hxp [Hx0 Hx1]]]].
+    destruct (Hsv x Hx Hxp) as [E0 E1]. rewrite (Hcc k Hcg) in Heq.
+    rewrite Hw, Heq. subst a0 a1. rewrite E0, E1. f_equal. f_equal. lia.
+  Qed.
+End Pipeline.
+
+(* ------------------------------------------- Fixed rule: a variant already phased in the input *)
+Section KeptAt.
+  Variables (pr : params) (ref : list Z) (ivs : list ivar).
+  Variables (p b x0 x1 : Z).
+  Hypothesis Hall : forall iv', In iv' ivs -> iv_pos iv' = p -> kept_phase iv' = Some (b, x0, x1).
+
+  Definition kinv (st : cstate) : Prop :=
+    (exists x, In x (fst st) /\ sv_pos x = p) /\
+    (forall x, In x (fst st) -> sv_pos x = p -> sv_a0 x = x0 /\ sv_a1 x = x1) /\
+    cget p (snd st) = Some (b - 1).
+
+  (* while the kept variants are put back: entries at p are the kept phase *)
+  Definition kpre (st : cstate) : Prop :=
+    (forall x, In x (fst st) -> sv_pos x = p -> sv_a0 x = x0 /\ sv_a1 x = x1) /\
+    (forall k, cget p (snd st) = Some k -> k = b - 1).
+
+  Lemma keep_step_kpre : forall st iv', In iv' ivs -> kpre st -> kpre (keep_step st iv').
+  Proof.
+    intros [sup cs] iv' Hin [Hs Hc]. unfold keep_step.
+    destruct (kept_phase iv') as [[[b' y0] y1]|] eqn:Ek; [|split; assumption].
+    cbn [fst snd] in *. destruct (Z.eq_dec (iv_pos iv') p) as [Hp|Hp].
+    - rewrite (Hall iv' Hin Hp) in Ek. inversion Ek; subst b' y0 y1. split.
+      + intros x Hx Hxp. apply in_app_iff in Hx. destruct Hx as [Hx|[Hx|[]]]; [exact (Hs x Hx Hxp)|].
+        subst x. split; reflexivity.
+      + intros k Hk. cbn [fst snd] in Hk. rewrite Hp in Hk. rewrite cget_cset_same in Hk. inversion Hk; reflexivity.
+    - split.
+      + intros x Hx Hxp. apply in_app_iff in Hx. destruct Hx as [Hx|[Hx|[]]]; [exact (Hs x Hx Hxp)|].
+        subst x. cbn [sv_pos] in Hxp. exfalso. apply Hp. exact Hxp.
+      + intros k Hk. cbn [fst snd] in Hk. rewrite cget_cset_other in Hk; [exact (Hc k Hk)|]. intro Hq. apply Hp. symmetry. exact Hq.
+  Qed.
+
+  Definition khas (st : cstate) : Prop :=
+    (exists x, In x (fst st) /\ sv_pos x = p) /\ is_some (cget p (snd st)) = true.
+
+  Lemma keep_step_khas : forall st iv', khas st -> khas (keep_step st iv').
+  Proof.
+    intros [sup cs] iv' [[x [Hx Hxp]] Hc]. unfold keep_step.
+    destruct (kept_phase iv') as [[[b' y0] y1]|]; [|split; [exists x; split; assumption|exact Hc]].
+    cbn [fst snd] in *. split.
+    - exists x. split; [apply in_app_iff; left; exact Hx|exact Hxp].
+    - apply cget_cset_some. exact Hc.
+  Qed.
+
+  Lemma keep_fold_khas : forall l st iv, In iv l -> In iv ivs -> iv_pos iv = p ->
+    khas (fold_left keep_step l st).
+  Proof.
+    induction l as [|y t IH]; intros st iv Hin Hivs Hp; [destruct Hin|]. cbn [fold_left].
+    destruct Hin as [Hin|Hin].
+    - subst y. apply (fold_left_inv keep_step khas); [intros a x _ Ha; apply keep_step_khas; exact Ha|].
+      destruct st as [sup cs]. unfold keep_step. rewrite (Hall iv Hivs Hp). unfold khas. cbn [fst snd]. split.
+      + exists (mkSV (iv_pos iv) x0 x1 0). split; [apply in_app_iff; right; left; reflexivity|exact Hp].
+      + rewrite Hp. rewrite cget_cset_same. reflexivity.
+    - apply (IH _ iv); assumption.
+  Qed.
+
+  Lemma init_kinv : (exists iv, In iv ivs /\ iv_pos iv = p) -> kinv (init_state Fixed ivs).
+  Proof.
+    intros [iv [Hin Hp]]. unfold init_state.
+    assert (H1 : kpre (fold_left keep_step ivs ([], []))).
+    { apply (fold_left_inv keep_step kpre).
+      - intros a x Hx Ha. apply keep_step_kpre; assumption.
+      - split; [intros x Hx; destruct Hx|intros k Hk; cbn in Hk; discriminate Hk]. }
+    destruct (keep_fold_khas ivs ([], []) iv Hin Hin Hp) as [Hex Hsome].
+    destruct H1 as [Hs Hc]. split; [exact Hex|]. split; [exact Hs|].
+    destruct (cget p (snd (fold_left keep_step ivs ([], [])))) as [k|] eqn:E; [|discriminate].
+    rewrite (Hc k eq_refl). reflexivity.
+  Qed.
+
+  Lemma cons_step_kinv : forall (st : cstate) (pv : Z * inner) (st' : cstate),
+    kinv st -> cons_step Fixed pr ref ivs st pv = Ok st' -> kinv st'.
+  Proof.
+    intros st pv st' [[x [Hx Hxp]] [Hs Hc]] Hstep. unfold cons_step in Hstep.
+    destruct (is_some (cget (fst pv) (snd st))) eqn:Esk.
+    - inversion Hstep; subst st'. split; [exists x; split; assumption|split; assumption].
+    - assert (Hp : fst pv <> p).
+      { intro Hq. rewrite Hq in Esk. rewrite Hc in Esk. discriminate. }
+      destruct (best_candidate (snd pv)) as [[[[bi ps] score] tot]|e]; [|discriminate].
+      destruct (find_iv (fst pv) ivs) as [iv1|]; [|discriminate].
+      assert (Hc' : cget p (cset (fst pv) ps (snd st)) = Some (b - 1)).
+      { rewrite cget_cset_other; [exact Hc|]. intro Hq. apply Hp. symmetry. exact Hq. }
+      destruct (negb (is_some (iv_phase iv1)) && _) eqn:Efl.
+      + inversion Hstep; subst st'. split; [exists x; split; assumption|split; assumption].
+      + destruct (nth_z (iv_g iv1) bi) as [a0|]; [|discriminate].
+        destruct (nth_z (iv_g iv1) (1 - bi)) as [a1|]; [|discriminate].
+        inversion Hstep; subst st'. cbn [fst snd]. split; [|split; [|exact Hc']].
+        * exists x. split; [apply in_app_iff; left; exact Hx|exact Hxp].
+        * intros y Hy Hyp. apply in_app_iff in Hy. destruct Hy as [Hy|[Hy|[]]]; [exact (Hs y Hy Hyp)|].
+          subst y. cbn [sv_pos] in Hyp. exfalso. apply Hp. exact Hyp.
+  Qed.
+
+  Lemma consensus_kept : forall V st, (exists iv, In iv ivs /\ iv_pos iv = p) ->
+    consensus Fixed pr ref ivs V = Ok st ->
+    plookup p (fst st) = Some (x0, x1) /\ cget p (snd st) = Some (b - 1).
+  Proof.
+    intros V st Hex Hc. rewrite consensus_unfold in Hc.
+    destruct (fold_res (cons_step Fixed pr ref ivs) V (init_state Fixed ivs)) as [st1|e] eqn:Ef; [|discriminate].
+    inversion Hc; subst st. clear Hc. cbn [fst snd].
+    assert (H1 : kinv st1).
+    { apply (fold_res_inv (cons_step Fixed pr ref ivs) kinv V (init_state Fixed ivs) st1); auto.
+      - intros a pv a' _ Ha Hs. apply (cons_step_kinv a pv a'); assumption.
+      - apply init_kinv. exact Hex. }
+    destruct H1 as [[x [Hx Hxp]] [Hs Hcc]]. split; [|exact Hcc].
+    assert (Hx' : In x (sv_sort (fst st1))) by (apply sv_sort_In; exact Hx).
+    pose proof (In_plookup p _ x Hx' Hxp) as Hsome.
+    destruct (plookup p (sv_sort (fst st1))) as [[a0 a1]|] eqn:Epl; [|discriminate].
+    destruct (plookup_In _ _ _ _ Epl) as [y [Hy [Hyp [Hy0 Hy1]]]].
+    apply (proj1 (sv_sort_In _ _)) in Hy. destruct (Hs y Hy Hyp) as [E0 E1]. subst a0 a1. rewrite E0, E1. reflexivity.
+  Qed.
+End KeptAt.
+
+Lemma list_eqb_refl : forall l, list_eqb l l = true.
+Proof. induction l as [|x t IH]; [reflexivity|]. cbn [list_eqb]. rewrite Z.eqb_refl. exact IH. Qed.
+
+(* the writer puts the kept phase back exactly *)
+Lemma write_call_kept : forall p st b x0 x1, x0 <> x1 ->
+  plookup p (fst st) = Some (x0, x1) -> cget p (snd st) = Some (b - 1) ->
+  write_call p st (remove_phasing (mkCall [Some x0; Some x1] true (Some b))) = mkCall [Some x0; Some x1] true (Some b).
+Proof.
+  intros p st b x0 x1 Hne Hpl Hcg. unfold write_call. rewrite Hpl, Hcg.
+  assert (Hg : gvec (c_gt (remove_phasing (mkCall [Some x0; Some x1] true (Some b)))) = sort_desc [x0; x1]).
+  { unfold remove_phasing. cbn [c_gt all_called sort_asc insert_asc].
+    destruct (x0 <=? x1) eqn:E; cbn [map]; rewrite gvec_pair.
+    - reflexivity.
+    - unfold sort_desc. cbn [sort_asc insert_asc].
+      assert (E2 : (x1 <=? x0) = true) by (apply Z.leb_le; apply Z.leb_gt in E; lia). rewrite E2, E. reflexivity. }
+  rewrite Hg. rewrite list_eqb_refl.
+  destruct (het_ids x0 x1 Hne) as [i0 [_ [_ [_ [_ [_ Hh]]]]]]. rewrite Hh. cbn [negb].
+  f_equal. f_equal. lia.
+Qed.
+
+Theorem prephased_untouched_fixed : forall pr ref inp readss out,
+  NoDup (map v_pos inp) ->
+  haplotagphase Fixed pr ref inp readss = Ok out ->
+  forall i r r' s reads c b x0 x1,
+    nth_error inp i = Some r -> nth_error out i = Some r' ->
+    nth_error readss s = Some reads ->
+    nth_error (v_calls r) s = Some c ->
+    v_pskey r = true -> c = mkCall [Some x0; Some x1] true (Some b) -> x0 <> x1 ->
+    nth_error (v_calls r') s = Some c.
+Proof.
+  intros pr ref inp readss out Hnd Hrun i r r' s reads c b x0 x1 Hi Ho Hreads Hc Hkey Hceq Hne.
+  destruct (haplotagphase_states _ _ _ _ _ _ Hrun) as [sts [Hout [_ Hsts]]].
+  destruct (Hsts s reads Hreads) as [st [Hst Hrs]].
+  subst out. rewrite nth_error_map in Ho. rewrite Hi in Ho. cbn [option_map] in Ho. inversion Ho; subst r'. clear Ho.
+  assert (Hin : In r inp) by (eapply nth_error_In; eauto).
+  assert (Hcn : nth s (v_calls r) dcall = c) by (apply nth_error_nth; exact Hc).
+  assert (Hk : kept_phase (ivar_of s r) = Some (b, x0, x1)).
+  { unfold kept_phase, ivar_of. cbn [iv_phase]. unfold extract_phase. rewrite Hcn, Hkey, Hceq.
+    cbn [c_phased c_gt c_ps raw_het forallb oz_eqb andb].
+    assert (E : (x0 =? x1) = false) by (apply Z.eqb_neq; exact Hne). rewrite E. reflexivity. }
+  assert (Hall : forall iv', In iv' (sample_view inp s) -> iv_pos iv' = v_pos r -> kept_phase iv' = Some (b, x0, x1)).
+  { intros iv' Hiv Hp. rewrite (view_unique inp s r iv' Hnd Hin Hiv Hp). exact Hk. }
+  assert (Hex : exists iv, In iv (sample_view inp s) /\ iv_pos iv = v_pos r).
+  { exists (ivar_of s r). split; [unfold sample_view; apply in_map; exact Hin|reflexivity]. }
+  unfold run_sample in Hrs. destruct (compute_votes (sample_view inp s) reads) as [V|e]; [|discriminate].
+  destruct (consensus_kept pr ref (sample_view inp s) (v_pos r) b x0 x1 Hall V st Hex Hrs) as [Hpl Hcg].
+  unfold write_record.
+  assert (Hany : existsb (phased_here (v_pos r)) sts = true).
+  { apply existsb_exists. exists st. split; [eapply nth_error_In; eauto|].
+    unfold phased_here. rewrite Hpl, Hcg. reflexivity. }
+  rewrite Hany. cbn [v_calls]. rewrite nth_error_map.
+  rewrite (combine_nth_error sts (map remove_phasing (v_calls r)) s st (remove_phasing c)); auto.
+  - cbn [option_map fst snd]. f_equal. rewrite Hceq. apply write_call_kept; assumption.
+  - rewrite nth_error_map. rewrite Hc. reflexivity.
+Qed.
+
+(* the code as it is alters them: an already phased variant that no tagged read covers is unphased,
+   one whose covering reads were tagged from the opposite orientation is flipped and renamed *)
+Theorem prephased_untouched_refuted :
+  exists pr ref inp readss out i r r' s c,
+    NoDup (map v_pos inp) /\
+    haplotagphase Cur pr ref inp readss = Ok out /\
+    nth_error inp i = Some r /\ nth_error out i = Some r' /\
+    nth_error (v_calls r) s = Some c /\ c_phased c = true /\ v_pskey r = true /\
+    (exists b x0 x1, c = mkCall [Some x0; Some x1] true (Some b) /\ x0 <> x1) /\
+    nth_error (v_calls r') s <> Some c.
+Proof.
+  exists default_params, [0; 1; 2; 3; 0; 1; 2; 3],
+    [mkRec 2 true true [mkCall [Some 0; Some 1] true (Some 3)];
+     mkRec 5 true true [mkCall [Some 1; Some 0] true (Some 3)]],
+    [[mkRead 3 1 [mkRV 2 0 30]]],
+    [mkRec 2 true true [mkCall [Some 0; Some 1] true (Some 3)];
+     mkRec 5 true true [mkCall [Some 0; Some 1] false (Some 3)]],
+    1%nat, (mkRec 5 true true [mkCall [Some 1; Some 0] true (Some 3)]),
+    (mkRec 5 true true [mkCall [Some 0; Some 1] false (Some 3)]), 0%nat, (mkCall [Some 1; Some 0] true (Some 3)).
+  split; [repeat constructor; cbn; intuition; try discriminate|].
+  split; [vm_compute; reflexivity|].
+  repeat (split; [reflexivity|]).
+  split; [exists 3, 1, 0; split; [reflexivity|discriminate]|].
+  cbn. intro H. inversion H.
+Qed.
+
+Theorem prephased_flipped_refuted :
+  exists pr ref inp readss out,
+    haplotagphase Cur pr ref inp readss = Ok out /\
+    inp = [mkRec 2 true true [mkCall [Some 1; Some 0] true (Some 99)]; mkRec 5 true true [mkCall [Some 0; Some 1] false None]] /\
+    out = [mkRec 2 true true [mkCall [Some 0; Some 1] true (Some 3)]; mkRec 5 true true [mkCall [Some 0; Some 1] true (Some 3)]].
+Proof.
+  exists default_params, [0; 1; 2; 3; 0; 1; 2; 3],
+    [mkRec 2 true true [mkCall [Some 1; Some 0] true (Some 99)]; mkRec 5 true true [mkCall [Some 0; Some 1] false None]],
+    [[mkRead 3 1 [mkRV 2 0 30; mkRV 5 0 30]; mkRead 3 2 [mkRV 2 1 30; mkRV 5 1 30]]],
+    [mkRec 2 true true [mkCall [Some 0; Some 1] true (Some 3)]; mkRec 5 true true [mkCall [Some 0; Some 1] true (Some 3)]].
+  split; [vm_compute; reflexivity|]. split; reflexivity.
+Qed.
+
+(* ------------------------------------------------------------------ the homopolymer filter is dead *)
+Lemma hp_loop_bound : forall ref start step t fuel i res,
+  res <= Z.max 0 t -> hp_loop ref start step t fuel i res <= Z.max 0 t.
+Proof.
+  intros ref start step t fuel. induction fuel as [|f IH]; intros i res H; cbn [hp_loop]; [exact H|].
+  destruct ((res <? t) && (0 <=? i) && (i <? Z.of_nat (length ref)) && (ref_at ref i =? ref_at ref start)) eqn:E;
+    [|exact H].
+  apply IH. apply andb_true_iff in E. destruct E as [E _]. apply andb_true_iff in E. destruct E as [E _].
+  apply andb_true_iff in E. destruct E as [E _]. apply Z.ltb_lt in E. lia.
+Qed.
+
+Lemma length_of_homopolymer_le : forall ref start step t, length_of_homopolymer ref start step t <= Z.max 0 t.
+Proof. intros. unfold length_of_homopolymer. apply hp_loop_bound. lia. Qed.
+
+(* each run length is capped at the threshold, so `max_length > cut_homopolymers` never holds *)
+Theorem homopolymer_filter_never_fires : forall ref pos cut, in_long_homopolymer ref pos cut = false.
+Proof.
+  intros ref pos cut. unfold in_long_homopolymer.
+  destruct (0 <? cut) eqn:E; [|reflexivity]. apply Z.ltb_lt in E. cbn [andb].
+  apply Z.ltb_ge.
+  pose proof (length_of_homopolymer_le ref (pos + 1) 1 cut).
+  pose proof (length_of_homopolymer_le ref pos (-1) cut). lia.
+Qed.
